@@ -180,7 +180,12 @@ def _chmod_files(entries, path, fs):
 
     for entry in entries:
         entry_path = fs.join(path, *entry.key)
-        mode = os.stat(entry_path).st_mode | stat.S_IEXEC
+        try:
+            mode = os.stat(entry_path).st_mode | stat.S_IEXEC
+        except FileNotFoundError:
+            # NOTE: the file could not be created, which has already been
+            # reported through onerror.
+            continue
         try:
             os.chmod(entry_path, mode)
         except OSError:
